@@ -16,7 +16,7 @@ from .. import terms as T
 from ..axestate import check_raw_axes
 from ..linopdesc import LV, LinAlg, _show, val_eq
 from ..model import AnchorMissing, Unrecognised, unparse, walk_no_nested
-from ..vn import NONE, VN, State, cond_text
+from ..vn import NONE, VN, State, cond_text, negate
 
 COMBINATORS = {"Conj", "Add", "Compose", "Hstack", "Vstack", "Diag"}
 COMPOSITE_ADJ = {"MatMul", "RightMatMul", "Multiply"}
@@ -159,6 +159,58 @@ def classify(term):
     raise Unrecognised("unclassified operator action `%s`" % T.show(term, 120))
 
 
+FLAGGED = {"MatMul": ("self.adjoint", "matmul", "mat"), "RightMatMul": ("self.adjoint", "matmul", "mat"), "Multiply": ("self.conj", "mul", "mult")}
+
+
+def _conj_transposes(k0):
+    """the terms that denote the conjugate transpose (last two axes) of k0 in the value numbering"""
+    c = T.conj(k0)
+    m1, m2 = T.const(-1), T.const(-2)
+    out = [T.app("swapaxes", c, m1, m2), T.app("swapaxes", c, m2, m1), T.conj(T.app("swapaxes", k0, m1, m2)), T.conj(T.app("swapaxes", k0, m2, m1))]
+    return [T.enc(x) for x in out]
+
+
+def _a9(run, M, sigs):
+    n = 0
+    for cname, (flag, kind, what) in FLAGGED.items():
+        if cname not in sigs:
+            raise AnchorMissing("sigpy.linop." + cname)
+        f, res, _ = sigs[cname]
+        fsym = T.sym(flag)
+        on, off = {}, {}
+        for conds, sig, kw in res:
+            if not sig.startswith(kind):
+                continue
+            rest = frozenset(c.key() for c in conds if c != fsym and c != negate(fsym))
+            if any(c == fsym for c in conds):
+                on[rest] = (sig, kw)
+            elif any(c == negate(fsym) for c in conds):
+                off[rest] = (sig, kw)
+        if not on or not off:
+            raise Unrecognised("%s._apply does not split into a flag-set and a flag-clear path (%d / %d)" % (cname, len(on), len(off)), f.node)
+        for rest in on:
+            # partner = the flag-clear path under the same remaining conditions (or the most specific one they imply)
+            cands = [r for r in off if r <= rest]
+            if not cands:
+                raise Unrecognised("%s._apply: no flag-clear path corresponds to the flag-set path under %d further conditions" % (cname, len(rest)), f.node)
+            (s1, k1), (s0, k0) = on[rest], off[max(cands, key=len)]
+            n += 1
+            if kind == "matmul":
+                pos = "#0" if s0 == "matmul[1]" else "#1"
+                a0, a1 = k0.get(pos), k1.get(pos)
+                ok = s0 == s1 and isinstance(a0, T.Poly) and isinstance(a1, T.Poly) and T.enc(a1) in _conj_transposes(a0)
+                want = "conj(%s) with the last two axes exchanged" % T.show(a0, 60)
+            else:
+                a0, a1 = k0.get("mult"), k1.get("mult")
+                ok = isinstance(a0, T.Poly) and isinstance(a1, T.Poly) and T.eq(a1, T.conj(a0))
+                want = "conj(%s)" % T.show(a0, 60)
+            run.check(ok, "A9", "%s[%s]%s" % (cname, flag, "" if not rest else " case %d" % (sorted(map(repr, on)).index(repr(rest)) + 1)), f.loc(), "with %s set the operator applies %s" % (flag, want),
+                      "%s._apply with %s set uses %s where the flag-clear path uses %s: the adjoint of x -> K x is x -> K^H x, i.e. %s (a missing conjugate is invisible to "
+                      "real-valued tests)" % (cname, flag, T.show(a1, 100) if isinstance(a1, T.Poly) else a1, T.show(a0, 100) if isinstance(a0, T.Poly) else a0, want),
+                      stmt="A9:%s" % cname)
+    run.floor("A9", 4, n, "flag-set / flag-clear path pairs")
+
+
 def apply_signatures(alg, cls):
     """value-number _apply with opaque attributes; returns list of (conds, signature, named args, return node)"""
     f = alg.M.method(cls, "_apply", inherit=False)
@@ -200,6 +252,8 @@ def check(run, M, tier):
     run.rule("A4", "combinator adjoints equal (AB)^H=B^H A^H, termwise ^H for Add/Hstack/Vstack/Diag with axes kept/exchanged, Conj(A.H)")
     run.rule("A5", "involution: A.H.H is an instance of A's class with equal shapes and action parameters")
     run.rule("A6", "raw (possibly negative) axes are normalised before any position- or value-sensitive use")
+    run.rule("A9", "flag semantics of the self-paired classes: with the adjoint/conj flag set, _apply uses the conjugate (transpose) of the very array it uses "
+                   "with the flag clear (MatMul/RightMatMul: conj(mat) with the last two axes exchanged; Multiply: conj(mult))")
     run.rule("A7", "MRI operator factories return expressions built only from sigpy.linop operators")
     alg = LinAlg(M)
     classes = [c for c in sorted(alg.classes.values(), key=lambda c: c.node.lineno) if c.mod.name == "sigpy.linop"]
@@ -280,6 +334,8 @@ def check(run, M, tier):
         if c.name not in COMBINATORS:
             _check_wiring(run, alg, c, sigs[c.name])
 
+    # ---- A9 flag semantics
+    _a9(run, M, sigs)
     # ---- A6
     check_raw_axes(run, M, "A6", scope="C01")
     # ---- A8 relational obligations on the numerical cores of the pairs
